@@ -83,6 +83,13 @@ class Ctl(object):
         self.mc = self.mcmod.MachineController(host, **mc_kwargs)
         return self.mc
 
+    def settle(self):
+        """After a call ended in an SCP error, requests it had just sent may
+        still be in flight (a windowed burst raises as soon as *one* command
+        runs out of tries): let them land before the model is compared or a
+        new snapshot is taken."""
+        self.w.sim.drain(0.05)
+
     def clean(self):
         return not (self.policy.active and any(self.policy.rates.values()))
 
